@@ -23,6 +23,46 @@ CHECKS = {
         "DESIGN.md section 6 C05, section 3 E1/E5",
         "E1",
     ),
+    "C07": (
+        "exploration",
+        "exhaustive input sweep: all of [0,253^3) (quick) / all 4,097,152,081 EO ints (thorough) + all byte strings of length 0..3, against an odometer/positional reference",
+        "Complete enumeration of the encode domain (thorough) and of every decode input up to 3 bytes; 4-byte decode over a reduced alphabet.",
+        "Reference M1 is the property's positional formula; quick tier enumerates the 1-3 byte range completely and boundary sets + one seeded window of the 4-byte range.",
+        "DESIGN.md section 6 C07",
+        "E4",
+    ),
+    "C08": (
+        "exploration",
+        "exhaustive enumeration of (byte value x position x length) table and of all short strings over a boundary alphabet, against the closed-form reference",
+        "Every byte value at every position of every length up to 17/40 and all strings up to length 5/7 over a 9-symbol boundary alphabet; byte-exact against M2 plus the stated algebra.",
+        "Reference M2 transcribes the documented reflection; strings longer than the table bound are not explored.",
+        "DESIGN.md section 6 C08",
+        "E4",
+    ),
+    "C10": (
+        "exploration",
+        "exhaustive enumeration: every length 0..600/2000 for the permutations, all bytes/pairs for flip_msb, all divisibility patterns up to length 10/12 x every multiple, all 3-step pipelines",
+        "Complete coverage of the stated finite input families for each primitive, compared with M5 and with the algebra in the property (inverse, involution, multiset, positions of non-multiples).",
+        "Reference M5 transcribes the docstrings; inputs beyond the enumerated families are not explored.",
+        "DESIGN.md section 6 C10",
+        "E4",
+    ),
+    "C11": (
+        "exploration",
+        "exhaustive sweep of all 16,194,277 challenges against the truncating-remainder reference",
+        "The whole domain of the property is enumerated in both tiers.",
+        "Reference M6 is the published formula with C-style remainder.",
+        "DESIGN.md section 6 C11",
+        "E4",
+    ),
+    "C12": (
+        "exploration",
+        "stateless DFS over every outcome of every random draw (scripted random source): 500,755 leaves",
+        "All environment answers of the three generate() functions are enumerated; each leaf is judged for range, wire fit and reconstruction.",
+        "Randomness is owned through the module-level random source; any other source stops the check.",
+        "DESIGN.md section 6 C12",
+        "E2",
+    ),
     "C13": (
         "model_checking",
         "explicit-state BFS to fixpoint over (two real PacketSequencer peers x reference counter) + all histories to depth 12/14 without dedup; thorough adds TLC model + replay of every edge",
